@@ -103,13 +103,14 @@ def qfork_monitors(r):
         if isinstance(res, list):
             bad.extend("fork by %s: %s" % (tn, b) for b in res)
     puts = [val[4:] for (tn, kind, obj, val) in s.trace if kind == "put" and isinstance(val, str) and val.startswith("msg:")]
-    fail = set(r.program.get("fail", ()))
-    want = [m for m in puts if m not in fail]
+    fail = set(r.program.get("fail", ())) if r.program.get("fail") else set()
+    poison = set(r.program.get("poison", ()))
+    want = [m for m in puts if m not in fail and m not in poison]
     if s.finished and r.sink.items != want[:len(r.sink.items)]:
         bad.append("sink order %r is not the put order %r (refused: %r)" % (r.sink.items, want, sorted(fail)))
     failed = getattr(r.sink, "failed", [])
-    if sorted(failed) != sorted(m for m in puts if m in fail)[:len(failed)]:
-        bad.append("refused messages %r, expected %r" % (failed, [m for m in puts if m in fail]))
+    if sorted(failed) != sorted(m for m in puts if m in fail and m not in poison)[:len(failed)]:
+        bad.append("refused messages %r, expected %r" % (failed, [m for m in puts if m in fail and m not in poison]))
     return bad
 
 
@@ -132,8 +133,10 @@ def stream_qfork(ctx):
         fail = [m for m in msgs if r0.chance(60)] or msgs[:1]
         # the multiprocessing context the handler was given: whatever its start method, a raw os.fork() of the
         # process must find the worker's lock protected
+        # some messages reach the worker but cannot be un-pickled there (queue.get() raises): the worker reports that too
+        poison = [m for m in msgs if m not in fail and r0.chance(30)]
         prog = {"procs": [0] * len(threads), "threads": threads, "fail": fail if r0.chance(70) else [], "catch": True,
-                "start_method": r0.choice(["fork", "fork", "spawn", "forkserver"])}
+                "poison": poison, "start_method": r0.choice(["fork", "fork", "spawn", "forkserver"])}
         if pi < 2:
             ctx.sample({"stream": "qfork", "program": prog})
 
